@@ -232,7 +232,10 @@ Gen(T) ==
                 MkDict(SubSeq(base, 1, Len(base) - 1)) }
     [] T.k = "union" -> UNION { Gen(T.alts[i]) : i \in DOMAIN T.alts }
     [] T.k = "lit"   -> {}
-    [] T.k = "enum"  -> {}
+    [] T.k = "enum"  -> IF \E i \in DOMAIN T.vs : T.vs[i].k = "seq"
+                        THEN { MkList(<<MkInt(1), MkInt(2)>>), MkList(<<MkFloat(<<1, 1>>), MkInt(2)>>), MkList(<<MkInt(1)>>),
+                               MkList(<<MkList(<<MkInt(1)>>), MkInt(2)>>), MkTuple(<<MkDict(<<>>), MkInt(2)>>), MkList(<<MkInt(2), MkInt(1)>>) }
+                        ELSE {}
     [] T.k = "ndarray" -> {}
     [] T.k = "ann"   -> Gen(T.t) \cup CondVals
     [] T.k = "sub"   -> Gen(T.base)
@@ -500,7 +503,8 @@ ExcLeaves ==
          TCounter(TSeq("list", TInt)), TSeq("set", TS("bytearray")), TDict("dict", TS("any"), TInt), TSeq("set", TS("any")),
          TAnn(TInt, <<[k |-> "uraise"]>>), TAnn(TStr, <<[k |-> "pos"]>>), TAnn(TSeq("list", TInt), <<[k |-> "finite"]>>),
          ClsHook([k |-> "uraise"]), ClsHook([k |-> "neg"]), ClsHook([k |-> "utrue"]),
-         TEnum("Mixed", <<MkInt(1), MkStr("s_a")>>), EnumS, SubI, SubS }
+         TEnum("Mixed", <<MkInt(1), MkStr("s_a")>>), EnumS, SubI, SubS,
+         TEnum("PairE", <<MkTuple(<<MkInt(1), MkInt(2)>>), MkStr("s_a")>>), TEnum("PairsE", <<MkTuple(<<MkInt(1), MkInt(2)>>), MkTuple(<<MkInt(2), MkInt(1)>>)>>) }
 
 (* shipped helper types (pane.types): Range, ValueOrList, alone and as members of each other *)
 ShippedLeaves == { RangeCls(TInt), RangeCls(TFloat), TVol(TInt), TVol(TStr), TVol(TS("any")), TVol(TSeq("list", TInt)),
